@@ -1172,7 +1172,10 @@ func checkC04(ctx *Ctx) *Result {
 	builderPlumbing(ctx, r, "R4.8")
 	configFieldOwnership(ctx, r, "R4.9")
 	// "no malformed pattern": the guards every accepted pattern has passed
-	r.share(checkC13(ctx), map[string]string{"R13.4": "every accepting path of ParsePattern has passed each documented guard (scheme, host alphabet, IDNA profile, IP canonical form, https never with an IP, port range, no default port)"}, nil)
+	r.share(checkC13(ctx), map[string]string{
+		"R13.4": "every accepting path of ParsePattern has passed each documented guard (scheme, host alphabet, IDNA profile, IP canonical form, https never with an IP, port range, no default port)",
+		"R13.1": "documented limits are the constants in use; the lexers' loops are bounded by them (a scheme, host or port beyond the documented maximum is not accepted)",
+	}, nil)
 	for _, f := range sortedKeys(val.Lists) {
 		t := val.Lists[f]
 		for i, ip := range t.Iter {
